@@ -24,6 +24,11 @@ class Registry(object):
         raises={exc: cond|True}, modifies=[...], inline=[...], opaque=[...], opaque_spec={...},
         loops={ordinal: {...}}, must_fail=clause, verify=True|False (False: assumed contract),
         trace=[callable(ex, st, outcome)->[(id, z3Bool)]], default_callee='inline'|'opaque'"""
+        if kw.pop('merge', False) and key in self.contracts:
+            old = self.contracts[key]
+            old['trace'] = list(old.get('trace', [])) + list(kw.get('trace_extra', []))
+            old['props'] = sorted(set(old['props']) | set(kw.get('props', [])))
+            return old
         kw.setdefault('props', [])
         if isinstance(kw['props'], str):
             kw['props'] = [kw['props']]
